@@ -10,6 +10,7 @@ import (
 	"bytes"
 	"context"
 	"encoding/json"
+	"errors"
 	"fmt"
 	"os"
 	"os/exec"
@@ -425,6 +426,9 @@ func merge(plan Plan, rs []*vrt.Result) *Merged {
 	return m
 }
 
+// ErrNoScenario is returned by Explore when the selection (families, tier, restriction) is empty.
+var ErrNoScenario = errors.New("no scenario registered in the worker for this selection")
+
 // Explore runs every selected scenario (sharded over subprocesses) and returns the merged
 // results in registration order.
 func (b *Built) Explore(c *core.Ctx, o Options) ([]*Merged, error) {
@@ -457,7 +461,7 @@ func (b *Built) Explore(c *core.Ctx, o Options) ([]*Merged, error) {
 		}
 	}
 	if len(plans) == 0 {
-		return nil, fmt.Errorf("no scenario of families %v registered in the worker", o.Families)
+		return nil, fmt.Errorf("%w: families %v, restriction %q", ErrNoScenario, o.Families, only)
 	}
 	procs := o.Procs
 	if procs <= 0 {
